@@ -152,6 +152,12 @@ struct GNode { int kind = 0; /*0 comparison, 1 AND, 2 OR*/ std::vector<GNode> ch
 
 static Tok plainTok(const std::string& s) { return Tok{s, s}; }
 static Tok nameTok(const std::string& s, bool quote) { return Tok{s, quote ? "'" + s + "'" : s}; }
+// random name from `names`, quoted in the deck with probability pq (draw order fixed: name, then quoting)
+template <class V> static Tok pickName(Rng& rng, const V& names, double pq) {
+    const std::string n = names[rng.below(std::size(names))];
+    const bool quote = rng.chance(pq);
+    return nameTok(n, quote);
+}
 
 static std::string numTok(double v, Rng& rng) {
     char b[64];
@@ -187,16 +193,21 @@ static Leaf genLeaf(Rng& rng, const World& w) {
         l.q = rng.pick(std::vector<std::string>(std::begin(WQ), std::end(WQ)));
         std::vector<std::string> have = wellsHaving(w, l.q);
         if (have.empty()) { l.q = "FOPR"; l.lhsKind = "field"; }
-        else { l.args.push_back(nameTok(rng.pick(have), rng.chance(0.6))); l.lhsKind = "well-name"; }
+        else { l.args.push_back(pickName(rng, have, 0.6)); l.lhsKind = "well-name"; }
     } else if (r < 0.60) {                // well quantity over a well list
         l.q = rng.pick(std::vector<std::string>(std::begin(WQ), std::end(WQ)));
-        if (rng.chance(0.75)) { l.pattern = LIST_POOL[rng.below(4)]; l.lhsKind = w.lists.count(l.pattern) ? "well-list" : "well-list-missing"; }
+        if (rng.chance(0.75)) {
+            // mostly a list that exists (the model creates the first n of the pool), sometimes any name of the pool
+            const bool existing = !w.lists.empty() && rng.chance(0.8);
+            l.pattern = LIST_POOL[rng.below(existing ? w.lists.size() : 4)];
+            l.lhsKind = w.lists.count(l.pattern) ? "well-list" : "well-list-missing";
+        }
         else { l.pattern = LIST_PATTERNS[rng.below(4)]; l.lhsKind = "well-list-pattern"; }
         l.args.push_back(nameTok(l.pattern, true));
     } else if (r < 0.80) {
         l.q = FQ[rng.below(5)]; l.lhsKind = "field";
     } else if (r < 0.88) {
-        l.q = GQ[rng.below(3)]; l.args.push_back(nameTok(GROUPS[rng.below(3)], rng.chance(0.6))); l.lhsKind = "group";
+        l.q = GQ[rng.below(3)]; l.args.push_back(pickName(rng, GROUPS, 0.6)); l.lhsKind = "group";
     } else {
         const char* d[] = {"DAY", "MNTH", "YEAR"};
         l.q = d[rng.below(3)]; l.lhsKind = "date:" + l.q; date = true; month = l.q == "MNTH";
@@ -211,12 +222,12 @@ static Leaf genLeaf(Rng& rng, const World& w) {
         l.rhs = plainTok(numTok(v, rng)); l.rhsKind = "number";
     }
     else if (rr < 0.08) { l.rhs = plainTok(FQ[rng.below(5)]); l.rhsKind = "field-quantity"; }
-    else if (rr < 0.11) { l.rhs = plainTok(GQ[rng.below(3)]); l.rhsArgs.push_back(nameTok(GROUPS[rng.below(3)], rng.chance(0.5))); l.rhsKind = "group-quantity"; }
+    else if (rr < 0.11) { l.rhs = plainTok(GQ[rng.below(3)]); l.rhsArgs.push_back(pickName(rng, GROUPS, 0.5)); l.rhsKind = "group-quantity"; }
     else if (rr < 0.15) {
         std::string q = WQ[rng.below(5)];
         std::vector<std::string> have = wellsHaving(w, q);
         if (have.empty()) { l.rhs = plainTok("3"); l.rhsKind = "number"; }
-        else { l.rhs = plainTok(q); l.rhsArgs.push_back(nameTok(rng.pick(have), rng.chance(0.5))); l.rhsKind = "well-quantity"; }
+        else { l.rhs = plainTok(q); l.rhsArgs.push_back(pickName(rng, have, 0.5)); l.rhsKind = "well-quantity"; }
     }
     else { l.rhs = plainTok(numTok(randomValue(rng), rng)); l.rhsKind = "number"; }
     return l;
@@ -550,8 +561,11 @@ static bool judge(vh::Reporter& rep, const std::string& route, const LibOut& lib
     std::string key;
     try {
         RV a = LibModel(toks, w, true, false).parseOr(), b = LibModel(toks, w, false, true).parseOr(), ab = LibModel(toks, w, true, true).parseOr();
-        if (sameAs(lib, a)) key = "or-false-well-comparison-empty-set";
-        else if (sameAs(lib, b) || sameAs(lib, ab)) key = "or-false-and-cleared-empty-set";
+        // path B alone, or only both together, explain the result -> B (a repair of path A alone would leave it);
+        // only path A explains it -> A
+        if (sameAs(lib, b)) key = "or-false-and-cleared-empty-set";
+        else if (sameAs(lib, a)) key = "or-false-well-comparison-empty-set";
+        else if (sameAs(lib, ab)) key = "or-false-and-cleared-empty-set";
     } catch (const std::exception&) {}
     if (key.empty()) key = lib.truth != ref.b ? "condition-truth-mismatch" : "condition-wells-mismatch";
     std::string what = route + ": library " + (lib.truth ? "true " : "false ") + setStr(lib.wells) + " vs reference " + ref.str() + " for: " + cond;
@@ -831,7 +845,8 @@ static void randomTriggerCase(vh::Reporter& rep, long idx, Rng& rng) {
     const char* names[3] = {"A", "B", "C"};
     World w = genWorld(rng);
     const int unit = (int)rng.below(3);
-    const std::time_t start0 = EPOCH0 + (std::time_t)rng.below(3650) * D + (std::time_t)rng.below(D);
+    const std::time_t startDay = (std::time_t)rng.below(3650);
+    const std::time_t start0 = EPOCH0 + startDay * D + (std::time_t)rng.below(D);
     Opm::Action::Actions actions;
     Opm::Action::State state;
     std::vector<RandAct> live;        // current definition per name
@@ -898,7 +913,7 @@ static void randomTriggerCase(vh::Reporter& rep, long idx, Rng& rng) {
         const long wsec = (long)std::max(0.0, std::floor(refA.spec.min_wait));
         const long choices[] = {0, 0, 1, wsec - 1, wsec, wsec + 1, wsec / 2, (long)rng.below(2 * wsec + 2), D, (long)rng.below(12 * D), 30 * D};
         if (step > 0) t += std::max(0L, choices[rng.below(11)]);
-        if (step > 0 && rng.chance(0.04)) { if (!define(live[rng.below(live.size())].spec.name, t)) return; }
+        if (step > 0 && rng.chance(0.02)) { if (!define(live[rng.below(live.size())].spec.name, t)) return; }
         // new summary values
         w.sc["FOPR"] = randomValue(rng);
         if (rng.chance(0.5)) w.sc["FOPR"] = 5 + (double)rng.below(5);
